@@ -45,9 +45,19 @@ type sliceCall struct {
 	f       func(x []int) any
 }
 
-var isZero = func(v int) bool { return v == 0 }
-var ident = func(v int) int { return v }
-var ltInt = func(a, b int) bool { return a < b }
+// c16probe, when set, is called from inside every callback the helpers are given: a helper must leave
+// its arguments unchanged also WHILE it runs, as far as its own callbacks can observe.
+var c16probe func()
+
+func probe() {
+	if c16probe != nil {
+		c16probe()
+	}
+}
+
+var isZero = func(v int) bool { probe(); return v == 0 }
+var ident = func(v int) int { probe(); return v }
+var ltInt = func(a, b int) bool { probe(); return a < b }
 
 func sliceCalls() []sliceCall {
 	other := func() []int { return []int{1, 2, 7} }
@@ -63,9 +73,9 @@ func sliceCalls() []sliceCall {
 		{"IndexOf", false, false, func(x []int) any { return gogu.IndexOf(x, 1) }},
 		{"LastIndexOf", false, false, func(x []int) any { return gogu.LastIndexOf(x, 1) }},
 		{"Map", false, false, func(x []int) any { return gogu.Map(x, ident) }},
-		{"ForEach", false, false, func(x []int) any { gogu.ForEach(x, func(int) {}); return nil }},
-		{"ForEachRight", false, false, func(x []int) any { gogu.ForEachRight(x, func(int) {}); return nil }},
-		{"Reduce", false, false, func(x []int) any { return gogu.Reduce(x, func(v, a int) int { return a + v }, 0) }},
+		{"ForEach", false, false, func(x []int) any { gogu.ForEach(x, func(int) { probe() }); return nil }},
+		{"ForEachRight", false, false, func(x []int) any { gogu.ForEachRight(x, func(int) { probe() }); return nil }},
+		{"Reduce", false, false, func(x []int) any { return gogu.Reduce(x, func(v, a int) int { probe(); return a + v }, 0) }},
 		{"Reverse", true, true, func(x []int) any { return gogu.Reverse(x) }},
 		{"Unique", false, false, func(x []int) any { return gogu.Unique(x) }},
 		{"UniqueBy", false, false, func(x []int) any { return gogu.UniqueBy(x, ident) }},
@@ -205,9 +215,21 @@ func c16(r *R) {
 		for _, s := range inputs {
 			for _, sp := range spares {
 				backing, x := window(s, sp)
+				during := ""
+				if !c.inPlace {
+					c16probe = func() {
+						if during == "" && !eqSlice(backing[2:2+len(s)], s) {
+							during = fmt.Sprint(backing[2 : 2+len(s)])
+						}
+					}
+				}
 				p, msg := enum.Try(func() { c.f(x) })
+				c16probe = nil
 				r.Eval(c.name)
 				wit := fmt.Sprintf("%s with x=%v (spare capacity %d)", c.name, s, sp)
+				if during != "" {
+					r.Bad(helperOf(c.name)+"/modifies-its-argument-while-running", wit, "a callback invoked by the helper saw the argument as %s", during)
+				}
 				if p {
 					continue // rejections (e.g. Zip of non-square) are C12's/C14's subject
 				}
